@@ -70,6 +70,9 @@ def ecp_canon(el):
     for p in el.get('ecp_potentials', []):
         rows = list(zip(p['r_exponents'], [dec(x) for x in p['gaussian_exponents']],
                         *[[dec(c) for c in col] for col in p['coefficients']]))
+        # a term whose coefficients are all zero contributes nothing to the potential (same convention as for
+        # zero coefficients of contracted functions)
+        rows = [r for r in rows if any(c != 0 for c in r[2:])]
         pots.append((p.get('ecp_type'), tuple(p['angular_momentum']), tuple(sorted(rows))))
     return (el.get('ecp_electrons'), frozenset(pots))
 
